@@ -3,8 +3,8 @@ package main
 // C15 — cosmetic engine returns exactly the applicable, non-excepted selectors.
 
 import (
-	"go/token"
 	"fmt"
+	"go/token"
 	"go/types"
 	"strings"
 
@@ -18,7 +18,7 @@ func init() {
 		Explanation: "Static decision of the structural clauses of C15. R1 (IDX): every rule whose content reaches the result is on the true edge of CosmeticRule.Match(rule, hostname) and on the false edge of the exception test " +
 			"for the same hostname and rule. R2: the domain table is probed with the hostname and each of its parent domains (loop-carried strings.Cut idiom or a suffix enumerator), rules with a wildcard-TLD domain are kept in a list that is scanned completely, " +
 			"and only rules without such a domain are exact-keyed, under every permitted domain. R3: nothing is emitted unless the CSS flag is set, generic rules only under the generic flag, and each selector is filed as generic/specific (ext/non-ext) by its rule. " +
-			"R4: exceptions are stored and looked up under the rule content and count exactly when some exception with that content matches the hostname. R5: every element-hiding rule from the scanner reaches the table. R7/R8 import C04.R5 (the domain test the table is keyed for) and C12.R7 (whole-line scanning). Table roles pass to successor helpers.",
+			"R4: exceptions are stored and looked up under the rule content and count exactly when some exception with that content matches the hostname. R5: every element-hiding rule from the scanner reaches the table. R7/R8 import C04.R5 (the domain test the table is keyed for) and C12.R7 (whole-line scanning). Table roles pass to successor helpers. Emissions are traced through fields of a local accumulator object and through helper activations; an exception lookup behind an emptiness test of the map is the lookup.",
 		Trusted: []string{"CosmeticRule.Match is the semantic predicate (its domain semantics are decided under C04's label-boundary rules for the shared helper)"},
 	})
 }
